@@ -92,11 +92,16 @@ def check_vsection(P, name, items, vals, risks, S, keys, labels, cfg_low, cfg_me
         if k not in labels:
             P.bad(name, "distribution", "unknown bucket %r" % k)
     P.eq(name, "distribution_sum", sum(dist.values()), n)
-    if cfg_low is not None:
-        for v, r in zip(vals, risks):
+    if cfg_low is not None and cfg_med is not None:
+        # every item: its risk level is the classification of its OWN reported metric by the thresholds echoed in this report ...
+        for it, v, r in zip(items, vals, risks):
             P.checked += 1
             if r != risk_of(v, cfg_low, cfg_med):
-                P.bad(name, "risk_level", "item with metric %d has risk %r, thresholds %s/%s give %r" % (v, r, cfg_low, cfg_med, risk_of(v, cfg_low, cfg_med)))
+                P.bad(name, "risk_level", "item %s with metric %d has risk %r, the echoed thresholds %s/%s give %r"
+                      % (it.get("Name", "?"), v, r, cfg_low, cfg_med, risk_of(v, cfg_low, cfg_med)))
+        # ... hence the summary's risk counts are the counts of the items' metrics classified by the echoed thresholds
+        for lvl in ("low", "medium", "high"):
+            P.eq(name, keys[lvl] + "_by_metric", S.get(keys[lvl]), sum(1 for v in vals if risk_of(v, cfg_low, cfg_med) == lvl))
 
 
 def check_report(data, labels):
@@ -122,6 +127,9 @@ def check_report(data, labels):
         P.eq("summary", "total_functions", U.get("total_functions"), len(fs))
         P.eq("summary", "average_complexity", U.get("average_complexity"), cx["Summary"]["AverageComplexity"])
         P.eq("summary", "high_complexity_count", U.get("high_complexity_count"), sum(1 for r in risks if r == "high"))
+        if cfg.get("low_threshold") is not None and cfg.get("medium_threshold") is not None:
+            P.eq("summary", "high_complexity_count_by_metric", U.get("high_complexity_count"),
+                 sum(1 for v in vals if risk_of(v, cfg["low_threshold"], cfg["medium_threshold"]) == "high"))
         P.eq("summary", "total_files", U.get("total_files"), cx["Summary"]["FilesAnalyzed"])
     dc = data.get("dead_code")
     if dc:
@@ -207,6 +215,10 @@ def check_report(data, labels):
                       ("high_lcom_classes", "medium_lcom_classes", "average_lcom"))
         P.eq("summary", hk, U.get(hk), sum(1 for r in risks if r == "high"))
         P.eq("summary", mk, U.get(mk), sum(1 for r in risks if r == "medium"))
+        if cfg.get("lowThreshold") is not None and cfg.get("mediumThreshold") is not None:
+            by = [risk_of(v, cfg["lowThreshold"], cfg["mediumThreshold"]) for v in vals]
+            P.eq("summary", hk + "_by_metric", U.get(hk), sum(1 for r in by if r == "high"))
+            P.eq("summary", mk + "_by_metric", U.get(mk), sum(1 for r in by if r == "medium"))
         P.eq("summary", ak, U.get(ak), S.get(skeys["avg"]))
     cl = data.get("clone")
     if cl:
@@ -589,6 +601,137 @@ def make_project(d, rng, kind, full=False):
         with open(os.path.join(d, n), "w") as f:
             f.write("\n".join(ls) + ("\n" if ls else ""))
     return {"kind": kind, "files": sorted(files), "broken": sorted(n for n in files if n.startswith("broken_"))}
+
+
+# ------------------------------------------------------------------------------------------------
+# risk-threshold lattice projects: every per-item section holds items exactly ON each threshold in effect, next to
+# it and two away; the CBO classes additionally vary in HOW they name their collaborators and in whether / how they
+# refer to themselves (a class is not coupled to itself: the self reference must change neither the reported metric
+# nor the risk level that follows from it)
+# ------------------------------------------------------------------------------------------------
+SELF_FORMS = ["none", "inst", "classmethod_inst", "param", "return", "attr", "generic", "union", "base_inst", "all"]
+DEP_KINDS = ["inst", "param", "attr", "base", "imported_inst", "return", "imported_param"]
+EXT_MODULE = "lattice_ext"
+
+
+def class_cbo_self(name, k, form, rot):
+    """Class `name` coupled to exactly k distinct helper classes (local D<i> / imported E<i>; the way a helper is named
+    rotates through DEP_KINDS starting at rot) that refers to itself as `form` says."""
+    bases, attrs, params, body, rets = [], [], [], [], []
+    kinds = [DEP_KINDS[(rot + j) % len(DEP_KINDS)] for j in range(k)]
+    if form == "base_inst" and k and "base" not in kinds:
+        kinds[0] = "base"               # the inheriting variant inherits
+    for j, kind in enumerate(kinds):
+        loc, ext = "D%d" % j, "E%d" % j
+        if kind == "base":
+            bases.append(loc)
+        elif kind == "inst":
+            body.append("        self.d%d = %s()" % (j, loc))
+        elif kind == "param":
+            params.append("p%d: %s" % (j, loc))
+        elif kind == "attr":
+            attrs.append("    f%d: %s = None" % (j, loc))
+        elif kind == "imported_inst":
+            body.append("        self.e%d = %s()" % (j, ext))
+        elif kind == "imported_param":
+            params.append("q%d: %s" % (j, ext))
+        else:
+            rets.append(loc)
+    ls = ["class %s%s:" % (name, "(%s)" % ", ".join(bases) if bases else "")]
+    ls += attrs
+    if form in ("attr", "all"):
+        ls.append("    nxt: %s = None" % name)
+    ls.append("    def __init__(%s):" % ", ".join(["self"] + ["%s = None" % p for p in params]))
+    ls += body + ["        self.z = 0", ""]
+    for j, r in enumerate(rets):
+        ls += ["    def get%d(self) -> %s:" % (j, r), "        return self.z", ""]
+    if form in ("inst", "base_inst", "all"):
+        ls += ["    def clone(self):", "        other = %s()" % name, "        other.z = self.z", "        return other", ""]
+    if form == "classmethod_inst":
+        ls += ["    @classmethod", "    def make(cls):", "        return %s()" % name, ""]
+    if form in ("param", "all"):
+        ls += ["    def merge(self, other: %s):" % name, "        self.z += other.z", "        return self", ""]
+    if form in ("return", "all"):
+        ls += ["    def me(self) -> %s:" % name, "        return self", ""]
+    if form == "generic":
+        ls += ["    def kids(self, seen: Optional[%s] = None) -> List[%s]:" % (name, name), "        return [self]", ""]
+    if form == "union":
+        ls += ["    def parent(self) -> %s | None:" % name, "        return None", ""]
+    return ls + [""]
+
+
+def lattice_values(lo, med, domain_lo):
+    return [v for v in range(lo - 2, med + 3) if v >= domain_lo]
+
+
+def make_lattice_project(d, rng, thr):
+    """thr: {"complexity": (low, medium), "cbo": ..., "lcom": ...} = the thresholds in effect for the run.
+    Returns {"files", "classes": {(file, class): (self form, intended CBO)}}."""
+    files, meta = {}, {}
+    ls = []
+    for k in lattice_values(thr["complexity"][0], thr["complexity"][1], 1):
+        ls += fn_complexity("cx_%d" % k, k)
+    files["lat_functions.py"] = ls
+    ls = []
+    for k in lattice_values(thr["lcom"][0], thr["lcom"][1], 1):
+        ls += class_lcom("Coh%d" % k, k)
+    files["lat_cohesion.py"] = ls
+    ks = lattice_values(thr["cbo"][0], thr["cbo"][1], 0)
+    nh = max(ks) if ks else 0
+    ls = []
+    for i in range(nh):
+        ls += ["class E%d:" % i, "    def v(self):", "        return %d" % i, "", ""]
+    files[EXT_MODULE + ".py"] = ls
+    for form in SELF_FORMS:
+        ls = ["from __future__ import annotations", "from typing import List, Optional"]
+        if nh:
+            ls.append("from %s import %s" % (EXT_MODULE, ", ".join("E%d" % i for i in range(nh))))
+        ls += ["", ""]
+        for i in range(nh):
+            ls += ["class D%d:" % i, "    def v(self):", "        return %d" % i, "", ""]
+        fname = "lat_cbo_%s.py" % form
+        for k in ks:
+            name = "K_%s_%d" % (form, k)
+            ls += class_cbo_self(name, k, form, rng.randrange(len(DEP_KINDS)))
+            meta[(fname, name)] = (form, k)
+        files[fname] = ls
+    for n, ls in files.items():
+        with open(os.path.join(d, n), "w") as f:
+            f.write("\n".join(ls) + "\n")
+    return {"kind": "risk_lattice", "files": sorted(files), "thresholds": {k: list(v) for k, v in thr.items()},
+            "classes": meta}
+
+
+def lattice_coverage(data, desc):
+    """What the report of a lattice project actually holds: per section the metric values present, for CBO per self form;
+    returns (holes, reached): holes = threshold neighbourhood values (t-1, t, t+1 of an ECHOED threshold t) with no item."""
+    holes, reached = [], {}
+    cx, cbo, lcom = data.get("complexity") or {}, data.get("cbo") or {}, data.get("lcom") or {}
+    secs = [("complexity", [f["Metrics"]["Complexity"] for f in (cx.get("Functions") or [])],
+             (cx.get("Config") or {}).get("low_threshold"), (cx.get("Config") or {}).get("medium_threshold"), 1)]
+    byform = {}
+    for c in cbo.get("Classes") or []:
+        key = (os.path.basename(c["FilePath"]), c["Name"])
+        if key in desc["classes"]:
+            byform.setdefault(desc["classes"][key][0], []).append(c["Metrics"]["CouplingCount"])
+    ccfg = cbo.get("Config") or {}
+    for form in SELF_FORMS:
+        secs.append(("cbo/self-reference=" + form, byform.get(form, []), ccfg.get("lowThreshold"), ccfg.get("mediumThreshold"), 0))
+    secs.append(("lcom", [c["Metrics"]["LCOM4"] for c in (lcom.get("Classes") or [])],
+                 (lcom.get("Config") or {}).get("lowThreshold"), (lcom.get("Config") or {}).get("mediumThreshold"), 1))
+    for name, vals, lo, med, dom in secs:
+        if lo is None or med is None:
+            holes.append("%s: the report echoes no thresholds" % name)
+            continue
+        have = set(vals)
+        for t in (lo, med):
+            for v in (t - 1, t, t + 1):
+                if v >= dom:
+                    if v in have:
+                        reached[name.split("=")[0]] = reached.get(name.split("=")[0], 0) + 1
+                    else:
+                        holes.append("%s: no item with metric %d (echoed threshold %d)" % (name, v, t))
+    return holes, reached
 
 
 def latest(d, ext):
